@@ -170,30 +170,30 @@ end indices
 
 section bridge
 variable {K : Type} [Field K] [LinearOrder K]
-variable (sqrt : K → K) (c : K) (S T : List (K × K))
+variable (sqrt : K → K) (S T : List (K × K))
 
 omit [LinearOrder K] in
 theorem dist_eq_euclid (p q : K × K) : dist sqrt p q = euclid sqrt p q := by
   simp [dist, euclid, pow_two]
 
 omit [LinearOrder K] in
-theorem rot_snd (cp sp : K) (p : K × K) : (rot cp sp p).2 = p.1 * (-sp) + p.2 * cp := rfl
+/-- the model's diagonal cost `(d - b) / sqrt 2` is the specification's, as written -/
+theorem diagc_eq_diagL2 (p : K × K) : diagc sqrt p = diagL2 sqrt p := rfl
 
 /-- the function form of the model's matrix -/
-def Dfn (i j : Fin (S.length + T.length)) : Option K := augEntry sqrt c c S T i.val j.val
+def Dfn (i j : Fin (S.length + T.length)) : Option K := augEntry sqrt S T i.val j.val
 
 omit [LinearOrder K] in
-theorem augMatrix_eq : augMatrix sqrt c c S T = List.ofFn fun i => List.ofFn fun j => Dfn sqrt c S T i j := rfl
+theorem augMatrix_eq : augMatrix sqrt S T = List.ofFn fun i => List.ofFn fun j => Dfn sqrt S T i j := rfl
 
-variable {sqrt c} [IsStrictOrderedRing K]
+variable {sqrt}
 
 /-- **the model's matrix is the abstract augmented matrix** of the Euclidean / diagonal costs -/
-theorem Dfn_eq_augD (hs : SqrtSpec sqrt) (hc : CosSpec c)
+theorem Dfn_eq_augD (_hs : SqrtSpec sqrt)
     (x : Fin S.length ⊕ Fin T.length) (y : Fin T.length ⊕ Fin S.length) :
-    toTop (Dfn sqrt c S T (rowE S T x) (colE S T y))
+    toTop (Dfn sqrt S T (rowE S T x) (colE S T y))
       = augD (pairCost sqrt S T) (diagCost sqrt S) (diagCost sqrt T) x y := by
-  have hrot : ∀ p : K × K, (rot c c p).2 = diagL2 sqrt p := fun p => by
-    rw [rot_snd, ← hc.mul_eq_diagL2 hs]; ring
+  have hrot : ∀ p : K × K, diagc sqrt p = diagL2 sqrt p := fun _ => rfl
   rcases x with i | j <;> rcases y with j' | i'
   · have hi := i.isLt
     have hj := j'.isLt
@@ -212,21 +212,21 @@ theorem Dfn_eq_augD (hs : SqrtSpec sqrt) (hc : CosSpec c)
       simp [Dfn, augEntry, augD, hj, e, this]
   · simp [Dfn, augEntry, augD]
 
-theorem sum_Dfn_perm (hs : SqrtSpec sqrt) (hc : CosSpec c) (τ : Equiv.Perm (Fin (S.length + T.length))) :
-    ∑ i, toTop (Dfn sqrt c S T i (τ i))
+theorem sum_Dfn_perm (hs : SqrtSpec sqrt) (τ : Equiv.Perm (Fin (S.length + T.length))) :
+    ∑ i, toTop (Dfn sqrt S T i (τ i))
       = ∑ x, augD (pairCost sqrt S T) (diagCost sqrt S) (diagCost sqrt T) x (equivOf S T τ x) := by
   rw [← Equiv.sum_comp (rowE S T)]
   refine Finset.sum_congr rfl fun x _ => ?_
-  rw [← Dfn_eq_augD S T hs hc]
+  rw [← Dfn_eq_augD S T hs]
   simp [equivOf]
 
 /-- **the model's value**: for every `lsa` meeting its contract the routine, run on the prepared
     (filtered, placeholder-substituted) diagrams `S`, `T`, selects entries whose sum is `some w` with
     `w` the min-sum matching cost of `S` and `T` -/
-theorem model_value (hs : SqrtSpec sqrt) (hc : CosSpec c) (lsa : Mat K → List (Nat × Nat))
+theorem model_value (hs : SqrtSpec sqrt) (lsa : Mat K → List (Nat × Nat))
     (hl : LsaContract lsa) :
-    ∃ sel w, (lsa (augMatrix sqrt c c S T)).mapM
-          (fun p => lookup (augMatrix sqrt c c S T) p.1 p.2) = some sel ∧
+    ∃ sel w, (lsa (augMatrix sqrt S T)).mapM
+          (fun p => lookup (augMatrix sqrt S T) p.1 p.2) = some sel ∧
       optSum sel = some w ∧
       IsMinSum (pairCost sqrt S T) (diagCost sqrt S) (diagCost sqrt T) w := by
   classical
@@ -235,27 +235,27 @@ theorem model_value (hs : SqrtSpec sqrt) (hc : CosSpec c) (lsa : Mat K → List 
   set v := diagCost sqrt T
   -- a finite assignment exists: everything to the diagonal
   have hcost0 := sum_aug_toEquiv cc u v (PM.empty : PM (Fin S.length) (Fin T.length))
-  have hsum0 := sum_Dfn_perm S T hs hc (permOf S T (toEquiv PM.empty))
+  have hsum0 := sum_Dfn_perm S T hs (permOf S T (toEquiv PM.empty))
   rw [equivOf_permOf, hcost0] at hsum0
-  have hfeas : ∃ σ : Equiv.Perm (Fin (S.length + T.length)), ∀ i, Dfn sqrt c S T i (σ i) ≠ none := by
+  have hfeas : ∃ σ : Equiv.Perm (Fin (S.length + T.length)), ∀ i, Dfn sqrt S T i (σ i) ≠ none := by
     refine ⟨permOf S T (toEquiv PM.empty), fun i hi => ?_⟩
-    have : ∑ i, toTop (Dfn sqrt c S T i (permOf S T (toEquiv PM.empty) i)) = ⊤ :=
+    have : ∑ i, toTop (Dfn sqrt S T i (permOf S T (toEquiv PM.empty) i)) = ⊤ :=
       WithTop.sum_eq_top.mpr ⟨i, Finset.mem_univ _, by rw [hi]; rfl⟩
     rw [hsum0] at this
     exact WithTop.coe_ne_top this
-  obtain ⟨σ, hσ, hmin⟩ := hl _ (Dfn sqrt c S T) hfeas
+  obtain ⟨σ, hσ, hmin⟩ := hl _ (Dfn sqrt S T) hfeas
   -- the optimum is finite
   have hle0 := hmin (permOf S T (toEquiv PM.empty))
   rw [hsum0] at hle0
   obtain ⟨w, hw⟩ := WithTop.ne_top_iff_exists.mp (ne_top_of_le_ne_top WithTop.coe_ne_top hle0)
-  refine ⟨List.ofFn fun i => Dfn sqrt c S T i (σ i), w, ?_, ?_, ?_⟩
+  refine ⟨List.ofFn fun i => Dfn sqrt S T i (σ i), w, ?_, ?_, ?_⟩
   · rw [augMatrix_eq, hσ]; exact selected_ofFn _ _
   · rw [← toTop_eq_coe_iff, toTop_optSum_ofFn, hw]
   · rw [isMinSum_iff_aug]
     refine ⟨⟨equivOf S T σ, ?_⟩, fun σ' => ?_⟩
-    · rw [← sum_Dfn_perm S T hs hc, hw]
+    · rw [← sum_Dfn_perm S T hs, hw]
     · have := hmin (permOf S T σ')
-      rw [← hw, sum_Dfn_perm S T hs hc (permOf S T σ'), equivOf_permOf] at this
+      rw [← hw, sum_Dfn_perm S T hs (permOf S T σ'), equivOf_permOf] at this
       exact this
 
 end bridge
